@@ -68,9 +68,19 @@ pub fn encode(name: &str, is_table: bool) -> String {
 pub fn is_valid(name: &str, is_table: bool) -> bool {
     if name.is_empty() || (!is_table && name.starts_with(TABLE_PREFIX)) {
         false
+    } else if name.chars().any(is_reserved_char) {
+        false
     } else {
         encode(name, is_table).encode_utf16().count() <= 31
     }
+}
+
+/// Returns true for characters that cannot appear in a (decoded) stream name:
+/// the characters that CFB reserves, and the characters that the encoding
+/// itself produces (which would decode to a different name).
+fn is_reserved_char(ch: char) -> bool {
+    matches!(ch, '/' | '\\' | ':' | '!')
+        || (0x3800..0x4840).contains(&(ch as u32))
 }
 
 // ========================================================================= //
